@@ -51,6 +51,9 @@ class Kernel:
         self.stores = []                 # (array name, axis, index Lin, state snapshot, node, value Val)
         self.loads = []
         self.returns = []                # state snapshots at return statements / function end
+        self.raises = []                 # (raise node, state snapshot)
+        self.max_paths = None
+        self.split_dnf = False           # split paths on and/or/!= conditions (small decision code only)
         self.nsteps = 0
 
     # ------------------------------------------------------------------ entry
@@ -347,6 +350,10 @@ class Kernel:
         return self.cond(node, st, quiet)
 
     def ev_Attribute(self, node, st, quiet):
+        if dotted(node).endswith('NUMBA_NUM_THREADS'):
+            s = Lin.sym('NUMBA_NUM_THREADS')
+            st.facts.add_ge(s - 1)
+            return Int(s)
         v = self.ev(node.value, st, quiet)
         if isinstance(v, Arr):
             if node.attr == 'shape':
@@ -384,7 +391,9 @@ class Kernel:
             if isinstance(k, Int) and k.lin.is_const():
                 d = base.arr.dim(int(k.lin.c), st.facts)
                 return Int(d) if d is not None else Opaque('shape?')
-            return Int(Lin.sym(fresh('shape')))
+            sh = Lin.sym(fresh('shape'))
+            st.facts.add_ge(sh)
+            return Int(sh)
         if isinstance(base, Tup):
             k = self.ev(items[0], st, quiet)
             if isinstance(k, Int) and k.lin.is_const() and -len(base.items) <= k.lin.c < len(base.items):
